@@ -96,7 +96,13 @@ where
     OpenClosed01: Distribution<F>,
 {
     fn sample<R: Rng + ?Sized>(&self, rng: &mut R) -> F {
-        let x: F = rng.sample(OpenClosed01);
+        // A draw of exactly 1 would give `ln(-ln(x)) = -inf` and an infinite sample
+        let x: F = loop {
+            let x: F = rng.sample(OpenClosed01);
+            if x < F::one() {
+                break x;
+            }
+        };
         self.location - self.scale * (-x.ln()).ln()
     }
 }
